@@ -100,7 +100,7 @@ CHECKS = {
              "weight offset/grammar); suffix written iff weight != 1.0 as ':' + default f32 Display, accepted by every grammar; omitted = "
              "default. Range level: the run-length passes are matched against the run-merging template (absent pair or weight change closes "
              "with one token and a reset, equal weight continues, runs open at present pairs, last run closed, token kind by the run's ends, "
-             "start's weight, no early exit), the leftover pass emits every present leftover combo, the split into rank pairs compares "
+             "start's weight, no early exit), the leftover pass looks every combo of every cell up (no iteration skips the loops inside it) and emits every present leftover combo, the split into rank pairs compares "
              "weights exactly (C12's probe rule). That these add up to value equality for all 2^1326 ranges is not machine-checked.",
         ref="DESIGN.md §4 C06 (revised in §10)",
         note=TB + "; f32 Display/parse round trip is a std guarantee; tokens well formed.",
@@ -211,7 +211,7 @@ CHECKS = {
              "reset; equal weight continues: runs are maximal; runs open at present pairs also right after a close; the last run is "
              "closed; single / + / span chosen by the run's ends per path; start's weight; no early exit; suited and offsuit passes are "
              "checked by the same template = sibling agreement); row domains and pass order pockets → suited → offsuit → leftovers; the "
-             "leftover pass emits every present leftover combo in table order; (3) a token's text determines its weight (suffix iff != 1.0, "
+             "leftover pass looks every cell's combos up and emits every present leftover combo in table order; (3) a token's text determines its weight (suffix iff != 1.0, "
              "default f32 Display); (4) rank_pairs(), which the passes merge, reports a rank pair exactly when its probe combo is present "
              "and all its combos carry the probe's weight - no further condition may drop a complete pair (C12's reporting rule). What remains trusted is the template matcher and std's Option/HashMap semantics.",
         ref="DESIGN.md §4 C17",
